@@ -324,21 +324,25 @@ def copyIntegerToFixed (n : Nat) (integer : List Nat) : Except E (List Nat) := d
 
 def P256_FE_LEN : Nat := 32
 
-/-- `ecdsa_der_to_raw(der)`: every `der` error is mapped to `ErrorCode::Invalid` -/
+/-- `.map_err(|_| Error::from(ErrorCode::Invalid))` (a panic of the callee stays a panic) -/
+def mapInvalid {α : Type} (x : Except E α) : Except E α :=
+  match x with
+  | .ok y => .ok y
+  | .error e => if e = .panic then .error .panic else if e = .endless then .error .endless else .error .invalid
+
+/-- `ecdsa_der_to_raw(der)`: every `der` error is mapped to `ErrorCode::Invalid`. The SEQUENCE length is
+read but not used (the Rust code does not enter a nested reader), trailing bytes are ignored. -/
 def ecdsaDerToRaw (der : List Nat) : Except E (List Nat) := do
-  let r ← match Rdr.new der with | .ok r => pure r | .error e => if e = .panic then .error .panic else .error .invalid
-  let ((tag, _), r1) ← match headerDecode r with
-    | .ok x => pure x | .error e => if e = .panic then .error .panic else .error .invalid
-  if tag ≠ TAG_SEQUENCE then .error .invalid else
-  let ((rt, rv), r2) ← match anyDecode r1 with
-    | .ok x => pure x | .error e => if e = .panic then .error .panic else .error .invalid
-  if rt ≠ TAG_INTEGER then .error .invalid else
-  let ((st, sv), _) ← match anyDecode r2 with
-    | .ok x => pure x | .error e => if e = .panic then .error .panic else .error .invalid
-  if st ≠ TAG_INTEGER then .error .invalid else
-  let a ← copyIntegerToFixed P256_FE_LEN rv
-  let b ← copyIntegerToFixed P256_FE_LEN sv
-  pure (a ++ b)
+  let r ← mapInvalid (Rdr.new der)
+  let ((tag, _), r1) ← mapInvalid (headerDecode r)
+  if tag ≠ TAG_SEQUENCE then .error .invalid else do
+    let ((rt, rv), r2) ← mapInvalid (anyDecode r1)
+    if rt ≠ TAG_INTEGER then .error .invalid else do
+      let ((st, sv), _) ← mapInvalid (anyDecode r2)
+      if st ≠ TAG_INTEGER then .error .invalid else do
+        let a ← copyIntegerToFixed P256_FE_LEN rv
+        let b ← copyIntegerToFixed P256_FE_LEN sv
+        pure (a ++ b)
 
 /-! ## model-side encoder (specification of the format, used by the round-trip theorems) -/
 
